@@ -508,7 +508,7 @@ def setup():
 def run_impl(sim, scns, d):
     """run the scenarios through the simulator in a few processes"""
     out = {}
-    nchunk = 8
+    nchunk = max(1, min(8, V.NPROC))
     chunks = [scns[i::nchunk] for i in range(nchunk)]
     import subprocess
     procs = []
@@ -648,7 +648,7 @@ def check(run):
         for f in sorted(os.listdir(cdir)):
             if f.startswith("C17_") and f.endswith(".json"):
                 cases.append(json.load(open(os.path.join(cdir, f))))
-    n = 330 if quick else 9000
+    n = 330 if quick else 30000
     for kk in range(n):
         c = gen_case(r, KINDS[kk % len(KINDS)] if kk < 4 * len(KINDS) else r.choice(KINDS))
         if r.random() < 0.5:
